@@ -132,6 +132,23 @@ def prepare(verbose=True):
     return st
 
 
+def changed_functions():
+    """names of root-package functions whose normalised source differs from the pinned fingerprints"""
+    try:
+        cur = json.load(open(os.path.join(BUILD, "gen_summary.json"))).get("func_fingerprints") or {}
+        pin = json.load(open(os.path.join(ROOT, "canon", "fingerprints.json")))["functions"]
+    except Exception:
+        return ["<fingerprints unavailable>"]
+    return sorted(k for k in set(cur) | set(pin) if cur.get(k) != pin.get(k))
+
+
+def env_reads():
+    try:
+        return json.load(open(os.path.join(BUILD, "gen_summary.json"))).get("env_reads") or []
+    except Exception:
+        return []
+
+
 def vo_up_to_date(rel):
     """True iff coq/<rel>.vo exists and make considers it up to date."""
     rc, _ = sh(["make", "-q", rel + "o"], cwd=COQ)
@@ -216,6 +233,18 @@ def _run_sharded(cmd, lines, shards=NPROC, timeout=3000):
 
 def run_impl(lines, shards=NPROC):
     return _run_sharded([os.path.join(BUILD, "implrun")], lines, shards)
+
+
+def run_impl_env(lines, extra_env):
+    """one fresh implementation process with extra environment variables"""
+    p = subprocess.run([os.path.join(BUILD, "implrun")], input="\n".join(lines) + "\n", env=dict(GOENV, **extra_env),
+                       stdout=subprocess.PIPE, stderr=subprocess.PIPE, text=True, timeout=600)
+    out = p.stdout.split("\n")
+    if out and out[-1] == "":
+        out.pop()
+    if len(out) != len(lines):
+        return ["process-failed rc=%s %s" % (p.returncode, (p.stderr or "")[-300:].replace("\n", " "))] * len(lines)
+    return out
 
 
 def run_model(lines, mode="model", shards=NPROC):
